@@ -305,4 +305,179 @@ theorem takeWhile_length_le (p : Int → Bool) (xs : List Int) : (xs.takeWhile p
     · rw [List.takeWhile_cons_of_pos hp]; simp; omega
     · rw [List.takeWhile_cons_of_neg hp]; simp
 
+
+/-! ### further helpers -/
+
+theorem tileShape_of (N n i : Int) :
+    tileShape N n i =
+      if 0 ≤ (if i < 0 then count N n + i else i) ∧ (if i < 0 then count N n + i else i) < count N n - 1
+      then .ok n
+      else if 0 ≤ (if i < 0 then count N n + i else i) ∧ (if i < 0 then count N n + i else i) = count N n - 1
+        then .ok (N - (if i < 0 then count N n + i else i) * n)
+        else .error .indexError := rfl
+
+theorem sum_replicate (k : Nat) (a : Int) : (List.replicate k a).sum = k * a := by
+  induction k with
+  | zero => simp
+  | succ k ih => simp [List.replicate_succ, ih]; ring
+
+theorem count_eq_of_bounds (N n T : Int) (hn : 0 < n) (h1 : (T - 1) * n < N) (h2 : N ≤ T * n) :
+    count N n = T := by
+  have a := (mul_lt_iff_lt_count N n (T - 1) hn).1 h1
+  have b := (mul_lt_iff_lt_count N n T hn)
+  by_contra hne
+  have : T < count N n := by omega
+  have := b.2 this
+  omega
+
+theorem getItem_block (N n : Int) (hn : 0 < n) (idx : PIdx) (a b : Int)
+    (hr : normSlice idx (count N n) = ⟨a, b⟩) (hab : 0 ≤ a ∧ a < b ∧ b ≤ count N n) :
+    getItem N n idx = .ok ⟨a * n, min (b * n) N⟩ := by
+  rw [getItem_of_norm N n idx a b hr]
+  have h0 : 0 ≤ a * n := Int.mul_nonneg hab.1 (by omega)
+  have h1 := (mul_lt_iff_lt_count N n a hn).2 (by omega)
+  have h2 := (mul_lt_iff_lt_count N n (b - 1) hn).2 (by omega)
+  have e : (b - 1) * n = b * n - n := by ring
+  rw [if_pos ⟨h0, h1, by omega⟩]
+
+theorem minL_le (a : Int) (xs : List Int) : minL a xs ≤ a ∧ ∀ x ∈ xs, minL a xs ≤ x := by
+  induction xs generalizing a with
+  | nil => simp [minL]
+  | cons x xs ih =>
+    simp only [minL]
+    obtain ⟨h1, h2⟩ := ih (min a x)
+    refine ⟨by omega, ?_⟩
+    intro z hz
+    rcases List.mem_cons.1 hz with rfl | hz
+    · omega
+    · exact h2 z hz
+
+theorem minL_mem (a : Int) (xs : List Int) : minL a xs ∈ a :: xs := by
+  induction xs generalizing a with
+  | nil => simp [minL]
+  | cons x xs ih =>
+    simp only [minL]
+    rcases List.mem_cons.1 (ih (min a x)) with h | h
+    · by_cases hax : a ≤ x
+      · rw [h, Int.min_eq_left hax]; simp
+      · rw [h, Int.min_eq_right (by omega)]; simp
+    · exact List.mem_cons_of_mem _ (List.mem_cons_of_mem _ h)
+
+theorem le_maxL (a : Int) (xs : List Int) : a ≤ maxL a xs ∧ ∀ x ∈ xs, x ≤ maxL a xs := by
+  induction xs generalizing a with
+  | nil => simp [maxL]
+  | cons x xs ih =>
+    simp only [maxL]
+    obtain ⟨h1, h2⟩ := ih (max a x)
+    refine ⟨by omega, ?_⟩
+    intro z hz
+    rcases List.mem_cons.1 hz with rfl | hz
+    · omega
+    · exact h2 z hz
+
+theorem maxL_mem (a : Int) (xs : List Int) : maxL a xs ∈ a :: xs := by
+  induction xs generalizing a with
+  | nil => simp [maxL]
+  | cons x xs ih =>
+    simp only [maxL]
+    rcases List.mem_cons.1 (ih (max a x)) with h | h
+    · by_cases hax : a ≤ x
+      · rw [h, Int.max_eq_right hax]; simp
+      · rw [h, Int.max_eq_left (by omega)]; simp
+    · exact List.mem_cons_of_mem _ (List.mem_cons_of_mem _ h)
+
+theorem clipSel_spec (sel : List Int) (hne : sel ≠ []) :
+    ∃ y1 y2, clipSel sel = .ok (y1, y2, sel.map (· - y1)) ∧ y1 ∈ sel ∧ y2 ∈ sel ∧
+      ∀ s ∈ sel, y1 ≤ s ∧ s ≤ y2 := by
+  cases sel with
+  | nil => exact absurd rfl hne
+  | cons x xs =>
+    refine ⟨minL x xs, maxL x xs, rfl, minL_mem x xs, maxL_mem x xs, ?_⟩
+    intro s hs
+    rcases List.mem_cons.1 hs with rfl | hs
+    · exact ⟨(minL_le _ xs).1, (le_maxL _ xs).1⟩
+    · exact ⟨(minL_le x xs).2 s hs, (le_maxL x xs).2 s hs⟩
+
+theorem vgetItem_of_norm (ch : List Int) (idx : PIdx) (a b : Int)
+    (h : normSlice idx (vcount ch) = ⟨a, b⟩) :
+    vgetItem ch idx = if a < 0 then .error .indexError else
+      (npGet (offsets ch) a).bind fun x => (npGet (offsets ch) b).bind fun y => .ok ⟨x, y⟩ := by
+  simp only [vgetItem, h, bind, pure, Except.pure]
+
+theorem npGet_inrange (a : List Int) (j : Int) (h : 0 ≤ j ∧ j < a.length) :
+    ∃ v, npGet a j = .ok v ∧ a[j.toNat]? = some v := by
+  simp only [npGet]
+  rw [if_neg (by omega), if_neg (by omega)]
+  have hj : j.toNat < a.length := by omega
+  rw [List.getElem?_eq_getElem hj]
+  exact ⟨_, rfl, rfl⟩
+
+theorem npGet_outofrange (a : List Int) (j : Int) (h : (a.length : Int) ≤ j) :
+    npGet a j = .error .indexError := by
+  have hj : ¬ j < 0 := by omega
+  simp only [npGet, if_neg hj]
+  rw [if_pos (by omega)]
+
+theorem exists_interval (f : Nat → Int) (y : Int) (T : Nat) (h0 : f 0 ≤ y) (hT : y < f T) :
+    ∃ i, i < T ∧ f i ≤ y ∧ y < f (i + 1) := by
+  induction T with
+  | zero => omega
+  | succ T ih =>
+    by_cases h : y < f T
+    · obtain ⟨i, hi, h1, h2⟩ := ih h
+      exact ⟨i, by omega, h1, h2⟩
+    · exact ⟨T, by omega, by omega, hT⟩
+
+theorem sorted_cumsum32 (ch : List Int) (hok : ChunksOK ch) : Sorted (cumsum32 0 ch) := by
+  intro i j v w hij hv hw
+  have hi := (List.getElem?_eq_some_iff.1 hv).1
+  have hj := (List.getElem?_eq_some_iff.1 hw).1
+  rw [cumsum32_length] at hi hj
+  rw [cumsum32_getElem? 0 ch hok.1 (le_refl 0) (by have := hok.2; omega) i hi] at hv
+  rw [cumsum32_getElem? 0 ch hok.1 (le_refl 0) (by have := hok.2; omega) j hj] at hw
+  cases hv; cases hw
+  have := pre_mono ch hok.1 (i + 1) (j + 1) (by omega)
+  omega
+
+theorem pre_zero (ch : List Int) : pre ch 0 = 0 := by cases ch <;> rfl
+
+theorem pre_drop (ch : List Int) (a k : Nat) : pre (ch.drop a) k = pre ch (a + k) - pre ch a := by
+  induction ch generalizing a with
+  | nil => simp [pre_nil]
+  | cons c cs ih =>
+    cases a with
+    | zero => simp [pre_zero]
+    | succ a =>
+      simp only [List.drop_succ_cons]
+      rw [ih a]
+      have : a + 1 + k = (a + k) + 1 := by omega
+      rw [this]; simp only [pre]; omega
+
+theorem pre_take (xs : List Int) (m k : Nat) (hk : k ≤ m) : pre (xs.take m) k = pre xs k := by
+  induction xs generalizing m k with
+  | nil => simp
+  | cons x t ih =>
+    cases k with
+    | zero => rw [pre_zero, pre_zero]
+    | succ k =>
+      cases m with
+      | zero => omega
+      | succ m => simp only [List.take_succ_cons, pre]; rw [ih m k (by omega)]
+
+theorem total_take (xs : List Int) (m : Nat) : total (xs.take m) = pre xs m := by
+  induction xs generalizing m with
+  | nil => simp [total, pre_nil]
+  | cons x t ih =>
+    cases m with
+    | zero => simp [total, pre]
+    | succ m => simp only [List.take_succ_cons, total, pre, ih]
+
+theorem pySlice_inrange (xs : List Int) (a b : Nat) (hab : a ≤ b ∧ b ≤ xs.length) :
+    pySlice xs (a : Int) (b : Int) = (xs.drop a).take (b - a) := by
+  simp only [pySlice, PySlice.bounds, PySlice.clampBound]
+  rw [if_neg (by omega), if_neg (by omega)]
+  have e1 : (min (a : Int) (xs.length : Int)).toNat = a := by omega
+  have e2 : (min (b : Int) (xs.length : Int) - min (a : Int) (xs.length : Int)).toNat = b - a := by omega
+  rw [e1, e2]
+
 end OdcGeo.C04
